@@ -36,12 +36,12 @@ InitBuilt ==
   /\ last = [a |-> "Init", p |-> "", verdict |-> "ok", S |-> {}]
   /\ hist = <<>>
 
-IKindSeq == <<"addfn", "sig", "field", "variant", "traitmethod", "impl", "removefn", "reorderfields", "reordervariants">>
+IKindSeq == <<"addfn", "sig", "field", "variant", "traitmethod", "impl", "removefn", "reorderfields", "reordervariants", "bound">>
 BKindSeq == <<"const", "let", "rename">>
 KOff == IF "KOFF" \in DOMAIN IOEnv THEN atoi(IOEnv.KOFF) ELSE 0
 PkgSeq == SetToSeq(Pkgs)
 PIdx(p) == CHOOSE i \in 1..Len(PkgSeq) : PkgSeq[i] = p
-IKindOf(p) == IKindSeq[((srcI[p] + 3 * PIdx(p) + KOff) % 9) + 1]
+IKindOf(p) == IKindSeq[((srcI[p] + 3 * PIdx(p) + KOff) % 10) + 1]
 BKindOf(p) == BKindSeq[((srcB[p] + PIdx(p) + KOff) % 3) + 1]
 
 SimLinkSets == {Pkgs} \cup {Pkgs \ {p} : p \in Pkgs}
@@ -69,6 +69,6 @@ SweepSpec == InitBuilt /\ [][SweepNext]_vars
 
 SimSpec == InitBuilt /\ [][SimNext]_vars
 SimSpecCold == Init /\ [][SimNext]_vars
-IKinds == {"addfn", "sig", "field", "variant", "traitmethod", "impl", "removefn", "reorderfields", "reordervariants"}
+IKinds == {"addfn", "sig", "field", "variant", "traitmethod", "impl", "removefn", "reorderfields", "reordervariants", "bound"}
 BKinds == {"const", "let", "rename"}
 =============================================================================
